@@ -2,5 +2,6 @@ pub mod engine;
 pub mod gen;
 pub mod hashid;
 pub mod libapi;
+pub mod probe;
 pub mod props;
 pub mod refmodel;
